@@ -34,3 +34,15 @@ pub fn quiet_panics() {
         }
     }));
 }
+
+pub use tikv_jemallocator as jemalloc;
+
+/// Opt-in: make jemalloc the global allocator of a check binary (the system allocator contends
+/// badly when 16 exploration threads churn small allocations).
+#[macro_export]
+macro_rules! use_jemalloc {
+    () => {
+        #[global_allocator]
+        static GLOBAL: $crate::jemalloc::Jemalloc = $crate::jemalloc::Jemalloc;
+    };
+}
